@@ -286,8 +286,14 @@ func (fr *Frame) applyContract(st *State, con *Contract, name string, callee *ss
 		res = fr.freshResult(sig, shortName(con.Key))
 	}
 	bindResults(env, con, callee, sig, res)
+	// the call may allocate: results described as fresh(...) lie between the two allocation counters
+	na := Fresh("alloc", SInt)
+	nonNegSyms[na.Name] = true
+	c.addFact(Le(st.Alloc, na))
+	st.Alloc = na
+	c.allocFacts(res, st.Alloc)
 	for _, en := range con.Ensures {
-		g := fr.evalBoolEnv(en.Expr, st, pre, env)
+		g := fr.evalBoolEnvFresh(en.Expr, st, pre, env, pre.Alloc)
 		c.addFact(Implies(st.R, g))
 	}
 	return res
@@ -552,6 +558,10 @@ func (fr *Frame) builtin(st *State, b *ssa.Builtin, cc *ssa.CallCommon, pos toke
 	case "print", "println":
 		return &Val{K: KUnit}
 	case "recover":
+		if c.recoverNil > 0 {
+			// deferred function running on the normal path: no panic is in flight
+			return &Val{K: KIface, T: cc.Signature().Results().At(0).Type(), X: Num(0)}
+		}
 		return c.opaque(cc.Signature().Results().At(0).Type(), "recover")
 	case "clear":
 		st.havocAll()
@@ -684,6 +694,7 @@ type writeSet struct {
 	prefixes  map[string]bool
 	freshOnly map[string]bool // still true => only objects allocated inside were written
 	cells     map[*ssa.Alloc]bool
+	why       string
 }
 
 func newWriteSet() *writeSet {
@@ -879,8 +890,12 @@ func (c *Ctx) scanCallWrites(cc *ssa.CallCommon, w *writeSet, depth int, seen ma
 		seen[callee] = true
 		sub := newWriteSet()
 		c.scanWrites(callee.Blocks, sub, depth+1, seen)
+		delete(seen, callee) // recursion stack, not a visited set
 		if sub.all {
 			w.all = true
+			if w.why == "" {
+				w.why = sub.why
+			}
 			return
 		}
 		for p := range sub.prefixes {
@@ -889,6 +904,9 @@ func (c *Ctx) scanCallWrites(cc *ssa.CallCommon, w *writeSet, depth int, seen ma
 		return
 	}
 	w.all = true
+	if w.why == "" {
+		w.why = name
+	}
 }
 
 // modPrefixes maps a modifies entry to heap key prefixes using static types only.
